@@ -18,7 +18,8 @@ Operations (Go function in brackets): `addBlobber`, `addValidator`, `stake`/`uns
 `update` (updateAllocationRequestInternal: addToWritePool, changeBlobbers, replaceBlobber — NORMAL and KILLED branch —,
 extendAllocation, adjustChallengePool, saveUpdatedAllocation), `commit` (commitBlobberConnection, commitMoveTokens),
 `respPass` (verifyChallenge → blobberPenalty, blobberReward, moveToValidators, moveToBlobbers), `kill`/`shut`
-(provider.Kill/ShutDown incl. the "already killed" refresh that zeroes `TotalOffers`), `close`
+(provider.Kill/ShutDown — as repaired in /repo: the killed stake pool is saved under the provider's id — incl. the
+"already killed" refresh that zeroes `TotalOffers`), `close`
 (finalizeAllocation / cancelAllocationRequest → finishAllocation, payChallengePoolPassPayments,
 payCancellationCharge, reduceOffer, deleteChallengePool), `wpLock`, `rpLock`, `rpUnlock`, `updBlobber`, `tick`.
 
